@@ -151,8 +151,14 @@ Fixpoint peekb_head (bs : list seg) (maxb cum : Z) (acc : list seg)
       else peekb_head r maxb cum acc
   end.
 
+(* the ErrShortBuffer guard of PeekWithBytes: the given slices count as well *)
+Definition peekb_limit (b : buffer) (maxBytes : Z) (bs : list seg) : option Z :=
+  if (maxBytes <=? 0) || (maxBytes =? MaxInt32) then Some MaxInt32
+  else if maxBytes >? fold_left (fun total p => total + zlen p) bs (Buffered b) then None
+  else Some maxBytes.
+
 Definition PeekWithBytes (b : buffer) (maxBytes : Z) (bs : list seg) : outcome (err * list seg) :=
-  match peek_limit b maxBytes with
+  match peekb_limit b maxBytes bs with
   | None => Ret (EShortBuf, [])
   | Some maxb =>
       obind (peekb_head bs maxb 0 []) (fun '(acc, cum, done) =>
